@@ -2018,11 +2018,17 @@ impl serde::Serialize for Value {
                 ObjectRepr::Plain => serializer.serialize_str(&o.to_string()),
                 ObjectRepr::Seq | ObjectRepr::Iterable => {
                     use serde::ser::SerializeSeq;
-                    let mut seq = ok!(serializer.serialize_seq(o.enumerator_len()));
-                    if let Some(iter) = o.try_iter() {
-                        for item in iter {
-                            ok!(seq.serialize_element(&item));
-                        }
+                    // enumerate the object only once: an iterable over a one-shot
+                    // iterator has nothing left for a second enumeration.  The length
+                    // is only passed on when the iterator knows it exactly.
+                    let iter = o.try_iter();
+                    let len = iter.as_ref().and_then(|iter| match iter.size_hint() {
+                        (lower, Some(upper)) if lower == upper => Some(lower),
+                        _ => None,
+                    });
+                    let mut seq = ok!(serializer.serialize_seq(len));
+                    for item in iter.into_iter().flatten() {
+                        ok!(seq.serialize_element(&item));
                     }
 
                     seq.end()
